@@ -55,7 +55,13 @@ def build():
         rc, out, dt2 = run(["cargo", "build", "--offline"], timeout=1800, env=env, cwd=os.path.join(VERIF, "harness"))
         if rc != 0:
             raise ToolError("cargo build of harness failed:\n" + out[-3000:])
-    log("build ok (%.1fs + %.1fs)" % (dt, dt2))
+        # the same binaries with the verification hooks compiled in (event traces of the xargs loop)
+        henv = dict(env, RUSTFLAGS="--cfg findutils_verif")
+        rc, out, dt3 = run(["cargo", "build", "--offline", "--bins", "--manifest-path", os.path.join(REPO, "Cargo.toml"),
+                            "--target-dir", os.path.join(BUILD, "repo-target-verif")], timeout=1800, env=henv)
+        if rc != 0:
+            raise ToolError("cargo build of /repo with the verification hooks failed:\n" + out[-3000:])
+    log("build ok (%.1fs + %.1fs + %.1fs)" % (dt, dt2, dt3))
 
 
 def workdir(tag):
